@@ -261,7 +261,7 @@ func (g *gen) next() Call {
 	case "ftruncate":
 		c.N = g.r.Intn(8) - 1
 	case "freaddir", "freaddirnames":
-		c.N = g.r.Intn(4) - 1
+		c.N = []int{-1, 0, 1, 1, 2, 1000000}[g.r.Intn(6)] // 1000000 stands for math.MaxInt
 	}
 
 	normCall(&c)
